@@ -150,3 +150,47 @@ func VH_C13_comment() {
 	}
 	rt.Observe("nmatch", nmatch)
 }
+
+// VH_C13_many: a prefix shared by many entities (2..8) still yields a multiple-match
+// error listing exactly the matching ids.
+func VH_C13_many() {
+	total := 8
+	k := 2 + rt.Choose(total-1) // how many share the prefix
+	sc := NewSubCache[*bug.Bug, *BugExcerpt, *BugCache](nil, nil, nil, nil, nil, nil, Actions[*bug.Bug]{}, "bug", "bugs", 1, 10)
+	var ids []entity.Id
+	c := rt.NondetByte()
+	rt.Assume(rt.IdByte(c))
+	rt.Assume(c != 'z')
+	for i := 0; i < total; i++ {
+		b := []byte("0123456789abcdefghijklmnopqrstuvwxyz0123456789abcdefghijklmnopqr")
+		b[1] = "0123456789"[i]
+		if i < k {
+			b[0] = c
+		} else {
+			b[0] = 'z'
+		}
+		id := entity.Id(b)
+		ids = append(ids, id)
+		sc.excerpts[id] = &BugExcerpt{id: id}
+	}
+	prefix := string([]byte{c})
+	_, err := sc.ResolveExcerptPrefix(prefix)
+	mm, ok := err.(*entity.ErrMultipleMatch)
+	rt.Assert(ok, "many-multiple-match")
+	if !ok {
+		return
+	}
+	rt.Assert(len(mm.Matching) == k, "many-exact-count")
+	for i := 0; i < k; i++ {
+		found := false
+		for _, m := range mm.Matching {
+			if m == ids[i] {
+				found = true
+			}
+		}
+		rt.Assert(found, "many-lists-each-match")
+	}
+	if k >= 6 {
+		rt.Cover("six-or-more")
+	}
+}
